@@ -61,6 +61,7 @@ def expected_sequence(W):
 
 
 def run_config(ctx, rep, cfg, F):
+    C.check_iterator_overrides(rep, F, "R09.2", lambda t: t.startswith("Cover"))
     n = 0
     for short, fmt in SPM.items():
         if short not in F.short:
